@@ -41,6 +41,7 @@ def run(F, rep, tier):
     key_coverage_rule(F, rep)
     normalisation_rule(F, rep, tier)
     name_characters_rule(F, rep, tier)
+    char_byte_rule(F, rep)
     # premise (C13): parser actions leave the parsing scope balanced - a context popped or left behind by one construct changes which names the lexer knows afterwards
     from props import c13
     r3 = rep.rule("R13.3", "parser actions composed along the grammar: every start alternative leaves the parsing scope at its entry depth; names are added at depth >= 1 only")
@@ -1104,3 +1105,113 @@ def name_characters_rule(F, rep, tier="quick"):
             rep.undecided(rid, key, "%d of %d representative characters do not fold" % (und, len(reps)))
         else:
             rep.ok(rid, key, "%d representative characters (all range boundaries of rule %s) classified as the grammar does" % (len(reps), "29" if part else "28"))
+
+
+# ====================================================================================================== R10.4
+def char_byte_rule(F, rep):
+    """R10.8: names may contain any letters; the lexer's name collector counts in characters (positions in the `Vec<char>` input) while `String::len()` / `str::len()`
+    count UTF-8 bytes.  A comparison, sum or difference of a byte length with a character count is right for ASCII names only: a bound name with non-ASCII letters is then
+    cut short or not found.  Decided by a unit analysis over the MIR of the lexer's functions and their closures: byte lengths ('B': String::len, str::len, len_utf8),
+    character counts ('C': chars().count(), possibly after filter / skip / take, the maximum of such counts); a Lt / Le / Gt / Ge / Eq / Ne / Add / Sub whose two
+    operands carry different units is reported."""
+    import mirutil
+    rid = rep.rule("R10.8", "the lexer never compares or adds a UTF-8 byte length and a character count (names with non-ASCII letters must be found like ASCII ones)")
+    BYTES = re.compile(r"(core::str::<impl str>::len|alloc::string::String::len|char::methods::<impl char>::len_utf8)$")
+    bodies = {n: b for n, b in F.bodies.items() if n.startswith("dmntk_feel_parser::lexer::")}
+    memo = {}
+
+    def from_chars(Bd, op, depth=0):
+        if op[0] not in ("C", "M") or depth > 8:
+            return False
+        defs = Bd.defs.get(op[1][0], [])
+        if len(defs) != 1:
+            return False
+        bi, si, kind, st = defs[0]
+        if kind == "call":
+            p = st["f"].get("p") or ""
+            if p.endswith("core::str::<impl str>::chars"):
+                return True
+            return bool(st["args"]) and from_chars(Bd, st["args"][0], depth + 1)
+        rv = st[2]
+        if rv[0] == "Use":
+            return from_chars(Bd, rv[1], depth + 1)
+        if rv[0] == "Ref":
+            return from_chars(Bd, ["C", rv[2]], depth + 1)
+        return False
+
+    def closure_of_local(Bd, op):
+        """name of the closure an operand holds (a closure aggregate assigned once)"""
+        if op[0] not in ("C", "M"):
+            return None
+        defs = Bd.defs.get(op[1][0], [])
+        if len(defs) == 1 and defs[0][2] == "assign" and defs[0][3][2][0] == "Agg" and isinstance(defs[0][3][2][1], list) and defs[0][3][2][1][0] == "closure":
+            return defs[0][3][2][1][1]
+        return None
+
+    def unit(name, Bd, op, depth=0):
+        if op[0] not in ("C", "M") or depth > 12:
+            return None
+        l = op[1][0]
+        key = (name, l)
+        if key in memo:
+            return memo[key]
+        memo[key] = None
+        defs = Bd.defs.get(l, [])
+        u = None
+        us = []
+        for bi, si, kind, st in defs:
+            x = None
+            if kind == "call":
+                p = st["f"].get("p") or ""
+                args = st.get("args", [])
+                if BYTES.search(p):
+                    x = "B"
+                elif re.search(r"Iterator>?::count$", p):
+                    x = "C" if args and from_chars(Bd, args[0]) else None
+                elif re.search(r"(Iterator>?::(max|min|sum)|Option::<.*>::(unwrap_or|unwrap|unwrap_or_default)|cmp::(min|max)|Ord::(min|max)|checked_(add|sub)|saturating_(add|sub))$", p) and args:
+                    parts = [unit(name, Bd, a, depth + 1) for a in args]
+                    parts = [q for q in parts if q]
+                    x = "X" if {"B", "C"} <= set(parts) else (parts[0] if parts else None)
+                elif re.search(r"Iterator>?::map$", p) and len(args) == 2:
+                    cn = closure_of_local(Bd, args[1])
+                    if cn in F.bodies:
+                        cb = F.bodies[cn]
+                        x = unit(cn, mirutil.Body(F, cb), ["C", [0]], depth + 1)
+            elif kind == "assign":
+                rv = st[2]
+                if rv[0] == "Use":
+                    x = unit(name, Bd, rv[1], depth + 1)
+                elif rv[0] == "Cast":
+                    x = unit(name, Bd, rv[2], depth + 1)
+                elif rv[0] == "Bin" and rv[1].replace("WithOverflow", "") in ("Add", "Sub"):
+                    a, c = unit(name, Bd, rv[2], depth + 1), unit(name, Bd, rv[3], depth + 1)
+                    x = "X" if {a, c} >= {"B", "C"} else (a or c)
+                elif rv[0] == "Agg" and rv[1] == "tuple":
+                    parts = [q for q in (unit(name, Bd, y, depth + 1) for y in rv[2]) if q]
+                    x = "X" if {"B", "C"} <= set(parts) else (parts[0] if parts else None)
+            if x:
+                us.append(x)
+        if us:
+            u = "X" if "X" in us or {"B", "C"} <= set(us) else us[0]
+        memo[key] = u
+        return u
+    nops = 0
+    for name, b in sorted(bodies.items()):
+        Bd = mirutil.Body(F, b)
+        k = 0
+        for bl in b["blocks"]:
+            if bl.get("cleanup"):
+                continue
+            for st in bl["s"]:
+                if st[0] == "A" and st[2][0] == "Bin" and st[2][1].replace("WithOverflow", "") in ("Add", "Sub", "Lt", "Le", "Gt", "Ge", "Eq", "Ne"):
+                    a, c = unit(name, Bd, st[2][2]), unit(name, Bd, st[2][3])
+                    if a or c:
+                        nops += 1
+                    if {a, c} >= {"B", "C"}:
+                        short = name.split("::")[-1] if "{closure" not in name else name.split("lexer::")[-1]
+                        rep.violation(rid, "units:%s#%d" % (short, k), "%s combines a UTF-8 byte length with a character count (%s, line %s): right for ASCII names only - a bound name with "
+                                      "non-ASCII letters is cut short or not found" % (short, st[2][1], st[-1]), "%s:%s" % (b["file"], st[-1]))
+                        k += 1
+    if not any(v["rule"] == rid for v in rep.violations):
+        rep.ok(rid, "units", "%d length-bearing comparisons / sums in the lexer, none mixes bytes and characters" % nops)
+    rep.floor(rid, "lexer bodies analysed for length units", len(bodies), 20)
